@@ -143,6 +143,74 @@ def rel_drop_middle(a, pick):
     return _drop(a, 1 + pick % (n - 2)) if n >= 3 else None
 
 
+def rel_swap(a, pick):
+    """two adjacent, different items exchanged (order of tracks / signals / ... is content)"""
+    t = a["t"]
+    b = copy.deepcopy(a)
+    if t == "data2D":
+        if a["nCams"] < 2:
+            return None
+        i = pick % (a["nCams"] - 1)
+        same = a["camMap"][i] == a["camMap"][i + 1] and all(row[i] == row[i + 1] for row in a["cells"])
+        if same:
+            return None
+        b["camMap"][i], b["camMap"][i + 1] = b["camMap"][i + 1], b["camMap"][i]
+        for row in b["cells"]:
+            row[i], row[i + 1] = row[i + 1], row[i]
+        return a, b
+    its = codec.items(b)
+    if len(its) < 2:
+        return None
+    i = pick % (len(its) - 1)
+    if its[i] == its[i + 1] and (t != "calib" or a["map"][i] == a["map"][i + 1]):
+        return None
+    its[i], its[i + 1] = its[i + 1], its[i]
+    if t == "calib":
+        b["map"][i], b["map"][i + 1] = b["map"][i + 1], b["map"][i]
+    a = copy.deepcopy(a)
+    a["_chmode"] = b["_chmode"] = "explicit"
+    return a, b
+
+
+def rel_duplicate(a, pick):
+    """item i becomes a copy of a different item j (the multiset of items changes, the length does not)"""
+    t = a["t"]
+    if t == "data2D":
+        return None
+    its = codec.items(a)
+    if len(its) < 2:
+        return None
+    i = pick % len(its)
+    j = (i + 1 + (pick // 7) % (len(its) - 1)) % len(its)
+    strip = lambda it: {k: v for k, v in it.items() if k != "channel"}  # noqa
+    if strip(its[i]) == strip(its[j]):
+        return None
+    if t == "platData":
+        return None  # no labels; sample equality is tolerance based, so two items may differ only below tolerance
+    if t == "platCal" and its[i]["label"] == its[j]["label"]:
+        return None  # size / position are compared with a tolerance: require a clear (label) difference
+    b = copy.deepcopy(a)
+    bi = codec.items(b)
+    ch = bi[i].get("channel")
+    bi[i] = copy.deepcopy(bi[j])
+    if ch is not None:
+        bi[i]["channel"] = ch  # channels stay unique; only the item's content is duplicated
+    a = copy.deepcopy(a)
+    a["_chmode"] = b["_chmode"] = "explicit"
+    return a, b
+
+
+def rel_d3_format(a, pick):
+    """3D data: with-links format (no links) vs without-links format"""
+    if a["t"] != "data3D":
+        return None
+    a = copy.deepcopy(a)
+    a["format"], a["links"] = 1, []
+    b = copy.deepcopy(a)
+    b["format"], b["links"] = 2, None
+    return a, b
+
+
 def rel_label(a, pick):
     its = codec.items(a) if a["t"] != "data2D" else None
     if not its:
@@ -398,7 +466,7 @@ def rel_event_count(a, pick):
 
 
 EQUAL_RELS = ("same", "rebuilt", "roundtrip")
-DIFF_RELS = {"append-item": rel_append, "drop-last": rel_drop_last, "drop-middle": rel_drop_middle, "label": rel_label,
+DIFF_RELS = {"make-duplicate": rel_duplicate, "swap-items": rel_swap, "d3-format": rel_d3_format, "append-item": rel_append, "drop-last": rel_drop_last, "drop-middle": rel_drop_middle, "label": rel_label,
              "channel": rel_channel, "sample": rel_sample, "viewport": rel_viewport, "camera-index": rel_index, "gap": rel_gap,
              "link": rel_link, "event-type": rel_event_type, "event-count": rel_event_count}
 for _f in CAM_FIELDS:
@@ -410,7 +478,11 @@ for _f in ("frequency", "startTime", "volume", "rot", "trans", "flag", "flags", 
 
 
 def relations_for(t):
-    rels = list(EQUAL_RELS) + ["append-item", "drop-last", "drop-middle"]
+    rels = list(EQUAL_RELS) + ["append-item", "drop-last", "drop-middle", "swap-items"]
+    if t not in ("data2D", "platData"):
+        rels.append("make-duplicate")
+    if t == "data3D":
+        rels.append("d3-format")
     if t != "optical":
         rels.append("sample")
     if t in ("data3D", "emg", "force3D", "platCal", "optical", "events"):
@@ -495,7 +567,7 @@ def make_run(t, rel):
 
 
 def make_strategy(t, rel):
-    need = 3 if rel == "drop-middle" else 1 if rel in ("drop-last", "label", "channel", "sample", "viewport", "camera-index", "gap", "event-type", "event-count") or rel.startswith(("camera:", "platform:")) else 0
+    need = 3 if rel == "drop-middle" else 2 if rel in ("swap-items", "make-duplicate") else 1 if rel in ("drop-last", "label", "channel", "sample", "viewport", "camera-index", "gap", "event-type", "event-count") or rel.startswith(("camera:", "platform:")) else 0
 
     def strat(tier):
         base = specs.SPEC[t](tier, need)
@@ -552,7 +624,7 @@ def files_strategy(tier):
         n = draw(st.sampled_from([1, 2, 3, 5, 14]))
         types = draw(st.lists(st.sampled_from(specs.TYPES), max_size=min(n, 3), unique=True))
         blocks = [{"spec": draw(specs.SPEC[t]("quick")), "comment": draw(comments), "cdate": draw(dates31), "mdate": draw(dates31)} for t in types]
-        rel = draw(st.sampled_from(["copy", "metadata-only", "slot-count", "version", "block-changed", "block-removed", "block-added"]))
+        rel = draw(st.sampled_from(["copy", "metadata-only", "slot-count", "version", "block-changed", "block-removed", "block-added", "block-order", "block-order"]))
         return {"N": n, "version": draw(st.sampled_from([1, 1, 2, 7])), "blocks": blocks, "rel": rel, "pick": draw(st.integers(0, 10 ** 6)),
                 "comment2": draw(comments), "date2": draw(dates31)}
 
@@ -596,6 +668,13 @@ def run_files(ctx, case):
                 if pair:
                     break
             a_blocks[k]["spec"], b_blocks[k]["spec"] = pair
+            expect = False
+    elif rel == "block-order":
+        if len(a_blocks) < 2:
+            rel = "copy"
+        else:
+            i = pick % (len(b_blocks) - 1)
+            b_blocks[i], b_blocks[i + 1] = b_blocks[i + 1], b_blocks[i]
             expect = False
     elif rel == "block-removed":
         if not a_blocks:
